@@ -1320,3 +1320,149 @@ func ruleMatlabConversionClass(c *core.Ctx) {
 			fmt.Sprintf("`e as %s` is wrapped in `%s…)` although the MATLAB class of %s is `%s`: the value gets another class (range, saturation and the serializer's class check differ)", strings.ToLower(prim), w, strings.ToLower(prim), s))
 	}
 }
+
+// R1: a type reference is resolved only after its arity was checked. resolveType stores the resolved definition into
+// SimpleType.ResolvedDefinition; every such store must lie behind the test that the number of type arguments the user
+// wrote equals the number of type parameters of the definition (with an error exit), so that arguments given to a
+// non-generic type, or too few/many arguments, are rejected instead of being ignored.
+func ruleArityCheckedBeforeResolution(c *core.Ctx) {
+	const rule = "R1"
+	c.Rule(rule, "dsl.resolveType: every store to SimpleType.ResolvedDefinition is dominated by the comparison of len(TypeParameters) with len(TypeArguments) whose mismatch branch returns an error", 2)
+	_, d, p := c.Func("pkg/dsl", "resolveType")
+	if d == nil {
+		c.Undecided(rule, "anchor/pkg/dsl.resolveType", 0, "anchor not found")
+		return
+	}
+	info := p.TypesInfo
+	fc := core.NewCFG(d.Body, info)
+	// the arity test
+	var test *ast.IfStmt
+	ast.Inspect(d.Body, func(n ast.Node) bool {
+		is, ok := n.(*ast.IfStmt)
+		if !ok || test != nil {
+			return true
+		}
+		be, ok := ast.Unparen(is.Cond).(*ast.BinaryExpr)
+		if !ok || (be.Op != token.NEQ && be.Op != token.EQL) {
+			return true
+		}
+		txt := types.ExprString(be)
+		if !(strings.Contains(txt, "TypeParameters)") && strings.Contains(txt, "TypeArguments)") && strings.Count(txt, "len(") == 2) {
+			return true
+		}
+		// the mismatch branch leaves with a non-nil error
+		branch := is.Body
+		if be.Op == token.EQL {
+			eb, ok := is.Else.(*ast.BlockStmt)
+			if !ok {
+				return true
+			}
+			branch = eb
+		}
+		leaves := false
+		if len(branch.List) > 0 {
+			if r, ok := branch.List[len(branch.List)-1].(*ast.ReturnStmt); ok && len(r.Results) > 0 {
+				if tv, ok := info.Types[r.Results[len(r.Results)-1]]; ok && !tv.IsNil() {
+					leaves = true
+				}
+			}
+		}
+		if leaves {
+			test = is
+		}
+		return true
+	})
+	if test == nil {
+		c.Bad(rule, "resolveType/arity test", d.Pos(), "resolveType no longer compares the number of type arguments with the number of type parameters (with an error exit)")
+		return
+	}
+	tb := fc.BlockOf(test.Cond)
+	n := 0
+	ast.Inspect(d.Body, func(x ast.Node) bool {
+		as, ok := x.(*ast.AssignStmt)
+		if !ok {
+			return true
+		}
+		for _, l := range as.Lhs {
+			se, ok := ast.Unparen(l).(*ast.SelectorExpr)
+			if !ok || se.Sel.Name != "ResolvedDefinition" {
+				continue
+			}
+			if nt := core.NamedOf(info.TypeOf(se.X)); nt == nil || nt.Obj().Name() != "SimpleType" {
+				continue
+			}
+			n++
+			key := "resolveType/store to ResolvedDefinition"
+			if n > 1 {
+				key += "#" + itoa(n)
+			}
+			ab := fc.BlockOf(as)
+			good := tb != nil && ab != nil && tb != ab && fc.BlockDominates(tb, ab) && as.Pos() > test.End()
+			c.Check(good, rule, key, as.Pos(), "behind the arity check", "the definition is stored on a path that has not passed the arity check: type arguments written on a primitive or a non-generic type (`string<int>`, `Point<float>`) are accepted and ignored")
+		}
+		return true
+	})
+	if n == 0 {
+		c.Undecided(rule, "resolveType/store to ResolvedDefinition", d.Pos(), "no store to SimpleType.ResolvedDefinition found")
+	}
+}
+
+// N6: a documentation comment cannot close its own docstring. python/common.WriteDocstring puts the model's comment
+// between `"""` delimiters; a comment that starts or ends with `"` would run into the delimiter, so the writer pads it
+// with a space. The padding must depend on nothing but that test: any further condition (single-line only, multi-line
+// only, ...) leaves comments for which `"""…""""` is emitted, and the generated module does not parse.
+func ruleDocstringQuotePadding(c *core.Ctx) {
+	const rule = "N6"
+	c.Rule(rule, "python/common.WriteDocstring: a comment that ends (starts) with a double quote gets a space appended (prepended), under that test alone, before it is written between the triple-quote delimiters; backslashes and embedded delimiters are escaped first", 4)
+	rows, d, _ := geeRows(c, "internal/python/common", "WriteDocstring")
+	if d == nil {
+		c.Undecided(rule, "anchor/python/common.WriteDocstring", 0, "anchor not found")
+		return
+	}
+	// the comment is written into a regular string literal: backslashes and the delimiter are escaped first, on every
+	// path, before anything is emitted (or the literal is a raw one)
+	firstEmit := 1 << 30
+	raw := false
+	for _, r := range rows {
+		if r.Kind == "emit" && r.Seq < firstEmit {
+			firstEmit = r.Seq
+			raw = strings.HasPrefix(strings.TrimSpace(r.Tmpl), `r"""`) || strings.HasPrefix(strings.TrimSpace(r.Tmpl), `R"""`)
+		}
+	}
+	for _, e := range []struct{ key, from, why string }{
+		{"backslashes escaped", `"\\"`, "a backslash of the comment is interpreted by Python: `C:\\users` is an invalid \\u escape and the generated module does not compile"},
+		{"embedded delimiter escaped", `"\"\"\""`, "a `\"\"\"` inside the comment closes the docstring early and the rest of the comment is parsed as code"},
+	} {
+		ok := false
+		var at = d.Pos()
+		for _, r := range rows {
+			if strings.HasPrefix(r.Kind, "assign:") && r.Tmpl == "CALL:strings.ReplaceAll" && len(r.Args) == 3 && r.Args[1] == e.from && len(r.Guards) == 0 && r.Seq < firstEmit {
+				ok, at = true, r.Pos
+			}
+		}
+		if e.key == "backslashes escaped" && raw {
+			ok = true
+		}
+		c.Check(ok, rule, "WriteDocstring/"+e.key, at, "escaped unconditionally before the literal is written", e.why)
+	}
+	type want struct{ key, tmpl, test string }
+	for _, w := range []want{
+		{"trailing quote padded", "%s ", `strings.HasSuffix(comment, "\"")`},
+		{"leading quote padded", " %s", `strings.HasPrefix(comment, "\"")`},
+	} {
+		var hit *gee.Row
+		for i := range rows {
+			r := &rows[i]
+			if strings.HasPrefix(r.Kind, "assign:") && r.Tmpl == w.tmpl {
+				hit = r
+			}
+		}
+		key := "WriteDocstring/" + w.key
+		if hit == nil {
+			c.Bad(rule, key, d.Pos(), "the docstring writer no longer pads a comment whose "+strings.Fields(w.key)[0]+" character is a double quote: `\"\"\"…\"\"\"\"` is emitted and the module does not parse")
+			continue
+		}
+		good := len(hit.Guards) == 1 && strings.ReplaceAll(hit.Guards[0], " ", "") == strings.ReplaceAll(w.test, " ", "")
+		c.Check(good, rule, key, hit.Pos, "padded under `"+w.test+"` alone", "the padding is applied only under `"+strings.Join(hit.Guards, " ∧ ")+"`: for the other comments with a "+strings.Fields(w.key)[0]+" double quote the closing delimiter becomes `\"\"\"\"` (SyntaxError: unterminated string literal in the generated module)")
+	}
+}
